@@ -266,3 +266,63 @@ func lemmaInflowConservation(f *inflow, n uint32, a, b uint16) (ok bool) {
 //@   ensures  (hastype(err, ConnectionError) && err.(ConnectionError) == ConnectionError(ErrCodeFlowControl)) ==> (int64(f.Length) > int64(old(rl.cc.inflow.avail)) || int64(f.Length) > int64(old(rl.cc.streams[f.StreamID].inflow.avail)))
 //@   ensures  int64(f.Length) > int64(old(rl.cc.inflow.avail)) ==> ghost(kept) == 0
 //@   noframe
+
+// ---------------------------------------------------------------------------
+// Send windows on the server (property C08)
+
+// consumeAllowed is the number of DATA bytes that may be released now: the minimum of the
+// stream window, the connection window, the caller's budget and the peer's maximum frame size.
+//
+//@ pure
+func consumeAllowed(flowN int32, hasConn bool, connN int32, n int32, maxFrame int32) int32 {
+	a := flowN
+	if hasConn && connN < a {
+		a = connN
+	}
+	if n < a {
+		a = n
+	}
+	if maxFrame < a {
+		a = maxFrame
+	}
+	return a
+}
+
+// Consume splits a DATA write so that the released piece fits both send windows and the frame
+// size, charges exactly the released bytes to both windows, and keeps the rest in order.
+//
+//@ func (FrameWriteRequest).Consume(wr, n) (c, rest, num)
+//@   requires hastype(wr.write, *writeData) ==> wr.write.(*writeData) != nil
+//@   requires hastype(wr.write, *writeData) && len(wr.write.(*writeData).p) > 0 ==> wr.stream != nil && wr.stream.sc != nil && wr.stream.flow.conn != &wr.stream.flow
+//@   ensures  num == 0 || num == 1 || num == 2
+//@   ensures  !hastype(wr.write, *writeData) || len(wr.write.(*writeData).p) == 0 ==> num == 1 && c == wr
+//@   ensures  hastype(wr.write, *writeData) && len(wr.write.(*writeData).p) > 0 && consumeAllowed(old(wr.stream.flow.n), old(wr.stream.flow.conn) != nil, old(wr.stream.flow.conn.n), n, wr.stream.sc.maxFrameSize) <= 0 ==> num == 0 && wr.stream.flow.n == old(wr.stream.flow.n) && wr.stream.flow.conn.n == old(wr.stream.flow.conn.n)
+//@   ensures  hastype(wr.write, *writeData) && len(wr.write.(*writeData).p) > 0 && consumeAllowed(old(wr.stream.flow.n), old(wr.stream.flow.conn) != nil, old(wr.stream.flow.conn.n), n, wr.stream.sc.maxFrameSize) > 0 ==> num >= 1 && hastype(c.write, *writeData) && c.stream == wr.stream
+//@   ensures  num >= 1 && hastype(wr.write, *writeData) && len(wr.write.(*writeData).p) > 0 ==> len(c.write.(*writeData).p) > 0 && len(c.write.(*writeData).p) <= int(consumeAllowed(old(wr.stream.flow.n), old(wr.stream.flow.conn) != nil, old(wr.stream.flow.conn.n), n, wr.stream.sc.maxFrameSize))
+//@   ensures  num >= 1 && hastype(wr.write, *writeData) && len(wr.write.(*writeData).p) > 0 ==> int64(wr.stream.flow.n) == int64(old(wr.stream.flow.n)) - int64(len(c.write.(*writeData).p))
+//@   ensures  num >= 1 && hastype(wr.write, *writeData) && len(wr.write.(*writeData).p) > 0 && old(wr.stream.flow.conn) != nil ==> int64(old(wr.stream.flow.conn).n) == int64(old(wr.stream.flow.conn.n)) - int64(len(c.write.(*writeData).p))
+//@   ensures  num == 1 ==> c == wr
+//@   ensures  num == 2 ==> hastype(rest.write, *writeData) && rest.stream == wr.stream && rest.done == wr.done && c.done == nil
+//@   ensures  num == 2 ==> samebase(c.write.(*writeData).p, wr.write.(*writeData).p) && suboff(c.write.(*writeData).p, wr.write.(*writeData).p) == 0
+//@   ensures  num == 2 ==> samebase(rest.write.(*writeData).p, wr.write.(*writeData).p) && suboff(rest.write.(*writeData).p, wr.write.(*writeData).p) == len(c.write.(*writeData).p)
+//@   ensures  num == 2 ==> len(c.write.(*writeData).p) + len(rest.write.(*writeData).p) == len(wr.write.(*writeData).p) && len(rest.write.(*writeData).p) > 0
+//@   ensures  num == 2 ==> !c.write.(*writeData).endStream && rest.write.(*writeData).endStream == wr.write.(*writeData).endStream
+//@   ensures  num == 2 ==> c.write.(*writeData).streamID == wr.write.(*writeData).streamID && rest.write.(*writeData).streamID == wr.write.(*writeData).streamID
+//@   modifies wr.stream.flow.n, wr.stream.flow.conn.n
+
+//@ func (*serverConn).scheduleFrameWrite(sc)
+//@   trusted
+//@   modifies *sc
+//@   preserves sc.flow, sc.inflow
+
+// processWindowUpdate: a WINDOW_UPDATE grows exactly the addressed window by its increment, or
+// reports a flow-control error and leaves the window unchanged when the sum would overflow.
+//
+//@ func (*serverConn).processWindowUpdate(sc, f) (err)
+//@   requires sc != nil && f != nil
+//@   ensures  f.StreamID == 0 && err == nil ==> int64(sc.flow.n) == int64(old(sc.flow.n)) + int64(int32(f.Increment))
+//@   ensures  f.StreamID == 0 && err != nil ==> sc.flow.n == old(sc.flow.n) && hastype(err, goAwayFlowError)
+//@   ensures  f.StreamID == 0 ==> (err != nil <==> (int64(old(sc.flow.n)) + int64(int32(f.Increment)) > 1<<31-1 || int64(old(sc.flow.n)) + int64(int32(f.Increment)) < -(1<<31)))
+//@   ensures  f.StreamID != 0 ==> sc.flow.n == old(sc.flow.n)
+//@   assert at call add: $n == int32(f.Increment)
+//@   noframe
